@@ -30,7 +30,7 @@ variant_flags() {
       CXX=clang++
       LIBFLAGS="-O0 -g -fsanitize-coverage=trace-pc-guard,trace-loads,trace-stores -fno-builtin"
       SIMFLAGS="-O1 -g"
-      LDFLAGS="-pthread -Wl,--wrap=memcpy -Wl,--wrap=memmove -Wl,--wrap=memset -Wl,--wrap=__cxa_guard_acquire -Wl,--wrap=__cxa_guard_release -Wl,--wrap=__cxa_guard_abort"
+      LDFLAGS="-pthread -Wl,--wrap=memcpy -Wl,--wrap=memmove -Wl,--wrap=memset -Wl,--wrap=__cxa_guard_acquire -Wl,--wrap=__cxa_guard_release -Wl,--wrap=__cxa_guard_abort -Wl,--wrap=pthread_mutex_lock -Wl,--wrap=pthread_mutex_trylock -Wl,--wrap=pthread_mutex_unlock -Wl,--wrap=pthread_once"
       DEFS="-DSIM_VARIANT_SCHED"
       ;;
     tsan)
